@@ -54,7 +54,7 @@ CHECKS = {
     "C08": (
         "exploration",
         "flow-configuration lattice x weight states x point lattice with a hand-composed torch reference and 2-D quadrature",
-        "21 single deviations of the flow configuration x dims {2,4} x {float32,float64} x {fresh, trained, reset_weights, reset_permutations} (thorough adds the type x linear-transform x batch-norm product): inverse(forward(x)) == x, opposite log-determinants, density at generation == density at evaluation, FlowModel's array interface == the torch model composed by hand (incl. latent samples with an alternative latent distribution), and a 401x401 quadrature of the density in 2-D; for FlowProposal (every latent prior x reparameterisation x flow type) the density attached to a generated physical point equals the density of the same point passed forwards (with the latent-prior correction); for the importance proposal the densities returned by draw() equal those recomputed from the samples.",
+        "21 single deviations of the flow configuration x dims {2,4} x {float32,float64} x {fresh, trained, reset_weights, reset_permutations} (thorough adds the type x linear-transform x batch-norm product): inverse(forward(x)) == x, opposite log-determinants, density at generation == density at evaluation, FlowModel's array interface == the torch model composed by hand (incl. latent samples with an alternative latent distribution), and a 401x401 quadrature of the density in 2-D; for FlowProposal (every latent prior x reparameterisation x flow type) the density attached to a generated physical point equals the density of the same point passed forwards (with the latent-prior correction); for the importance proposal the densities returned by draw() equal those recomputed from the samples. Call-size invariance: both proposals evaluate calls of 1 ... 262 145 points and the rows at both ends, the middle and around every round batch boundary are re-evaluated alone and in a small call.",
         "Tolerances by dtype (2e-4 / 1e-9), scaled by the local contraction exp(|log det|/d); comparisons whose amplification x machine epsilon exceeds 1e-3 are undecidable and skipped (untrained batch norm has zero running variance). Quadrature skipped for lars and for degenerate (width < 1e-6) flows.",
         "4/C08",
     ),
@@ -75,7 +75,7 @@ CHECKS = {
     "C11": (
         "fault_enumeration",
         "every crash point (incl. byte prefixes of files under construction) of the recorded file-operation log of real checkpoints and weights saves",
-        "For 9-11 histories (checkpoint #1/#2/#3 and weights save #1/#2/#3 of real standard and INS runs, with and without keeping the previous checkpoint) the file operations performed by the real code are recorded; every crash point - before each operation, after the last, and every byte prefix on a lattice while a file is open - is materialised as an on-disk image and FlowSampler(resume=True) is run on it: it must succeed, the loaded sampler state must equal the previous or the new checkpoint, the loaded weights the previous or the new file (never torn, never silently random), and one image per distinct loaded class is continued to completion under the C01/C03 monitors and the C05 oracle. Two-crash histories (quick: three checkpoint histories, thorough: all): from every operation-boundary image the run is resumed up to its next checkpoint and that checkpoint's operation-boundary images are enumerated again; each must load the state before or after it, never a fresh start once a checkpoint had completed. Thorough adds a real child process killed with os._exit before every operation boundary.",
+        "For 9-11 histories (checkpoint #1/#2/#3 and weights save #1/#2/#3 of real standard and INS runs, with and without keeping the previous checkpoint) the file operations performed by the real code are recorded; every crash point - before each operation, after the last, and every byte prefix on a lattice while a file is open - is materialised as an on-disk image and FlowSampler(resume=True) is run on it: it must succeed, the loaded sampler state must equal the previous or the new checkpoint, the loaded weights the previous or the new file (never torn, never silently random), and one image per distinct loaded class is continued to completion under the C01/C03 monitors and the C05 oracle. Two-crash histories (quick: three checkpoint histories, thorough: all): from every operation-boundary image the run is resumed up to its next checkpoint and that checkpoint's operation-boundary images are enumerated again; each must load the state before or after it, never a fresh start once a checkpoint had completed. Thorough adds a real child process killed with os._exit before every operation boundary. Every weights crash image of the standard sampler is also resumed with the recorded weights file named explicitly (weights_path= / weights_file=) and must load what the plain resume loads.",
         "Process-kill semantics (no power loss). torch.save's internal writes are modelled as byte prefixes of the completed file. Resume never reads the .temp file (asserted), which justifies the prefix lattice for it.",
         "4/C11",
     ),
@@ -89,7 +89,7 @@ CHECKS = {
     "C13": (
         "fault_enumeration",
         "signal handler invoked before every executed source line of selected iterations (sys.settrace line/opcode events), each followed by resume and validation",
-        "For iterations covering the uninformed phase, the first flow iteration with training and population, and ordinary flow iterations (standard sampler) and a complete loop body (importance sampler), plus the initialisation of a fresh run and the finalisation of both samplers (entry to finalise until it returns, including the forced final checkpoint write), the handler FlowSampler installed for SIGTERM/SIGINT/SIGALRM is invoked just before every line event of every nessai frame (loops de-duplicated to first/second/last occurrence; opcode events inside consume_sample, insert_live_point and the integrator in thorough). Oracle: SystemExit with the configured code; the checkpoint left behind resumes; no discarded point recorded or integrated twice, none lost, full live set without duplicates, counts of samples / evidence entries / insertion indices agree; the resumed run completes under the C01/C03 monitors and the C05 oracle; for the INS the last iteration-boundary checkpoint is byte-identical.",
+        "For iterations covering the uninformed phase, the first flow iteration with training and population, and ordinary flow iterations (standard sampler) and a complete loop body (importance sampler), plus the initialisation of a fresh run and the finalisation of both samplers (entry to finalise until it returns, including the forced final checkpoint write), the handler FlowSampler installed for SIGTERM/SIGINT/SIGALRM is invoked just before every line event of every nessai frame (loops de-duplicated to first/second/last occurrence; opcode events inside consume_sample, insert_live_point and the integrator in thorough). Oracle: SystemExit with the configured code; the checkpoint left behind resumes; no discarded point recorded or integrated twice, none lost, full live set without duplicates, counts of samples / evidence entries / insertion indices agree; the resumed run completes under the C01/C03 monitors and the C05 oracle; for the INS the last iteration-boundary checkpoint is byte-identical. Exit-code variants (0, 1, 255, not configured = 130) are compared with the code that was requested.",
         "Line-level granularity outside the commit functions. Known findings (17+3 call sites in NestedSampler.consume_sample between removal and insertion, 6 in NestedSampler.finalise) are listed in known_findings.json; any other site is reported.",
         "4/C13",
     ),
@@ -103,21 +103,21 @@ CHECKS = {
     "C15": (
         "model_checking",
         "exhaustive trajectory words on a scripted proposal and exhaustive criteria x tolerance lattices, each prediction replayed as a real run",
-        "Standard sampler: the real nested_sampling_loop (nlive 10) is driven through every trajectory word over a 4-letter alphabet; from the recorded condition sequence the stopping iteration is predicted for every tolerance placed between consecutive recorded values and every cap (none, 1, first, first+-1) and compared with a real re-run; the compared value must equal history['dlogZ'] and lie in the interval spanned by the two conventions of the remaining-evidence estimate recomputed from the samples; on convergence the live points are consumed once and a second call is idempotent. Importance sampler: per configuration one recorded trajectory; every criterion, alias and pair x any/all x tolerance lattice around the recorded values x min/max iteration is predicted and re-run; ESS, evidence change, fractional error and Z_err are recomputed from the samples (mpmath). Real runs of both samplers are re-run and resumed from the final checkpoint (no further evaluations, identical results).",
+        "Standard sampler: the real nested_sampling_loop (nlive 10) is driven through every trajectory word over a 4-letter alphabet; from the recorded condition sequence the stopping iteration is predicted for every tolerance placed between consecutive recorded values and every cap (none, 1, first, first+-1) and compared with a real re-run; the compared value must equal history['dlogZ'] and lie in the interval spanned by the two conventions of the remaining-evidence estimate recomputed from the samples; on convergence the live points are consumed once and a second call is idempotent. Importance sampler: per configuration one recorded trajectory; every criterion, alias and pair x any/all x tolerance lattice around the recorded values x min/max iteration is predicted and re-run; ESS, evidence change, fractional error and Z_err are recomputed from the samples (mpmath). Real runs of both samplers are re-run and resumed from the final checkpoint (no further evaluations, identical results). One quantity configured twice (name + alias) keeps two tolerances.",
         "'meets' is value <= tolerance for every criterion as documented; tolerance = +inf is excluded (criteria start at +inf). Known finding: capped standard runs are not idempotent (pinned by an existing test).",
         "4/C15",
     ),
     "C16": (
         "exploration",
         "exhaustive weight-vector enumeration with the uniform variates and numpy.random.choice behind explorer-owned seams",
-        "For every log-weight vector of length 1..5 over a 6-letter alphabet (incl. -inf, -745, shifts up to 1e5) rejection sampling is run for every lattice value of the uniform variates (constant, one-deviant and full joint lattices), so 'kept with probability w/max w' is decided exactly as 'kept iff u < w/max w'; for multinomial resampling the arguments handed to numpy.random.choice (population, size=int(ESS) or n, p=w/sum w, replace) are checked and every scripted answer must come back unchanged. ESS bounds and shift invariance are checked on the same vectors.",
+        "For every log-weight vector of length 1..5 over a 6-letter alphabet (incl. -inf, -745, shifts up to 1e5) rejection sampling is run for every lattice value of the uniform variates (constant, one-deviant and full joint lattices), so 'kept with probability w/max w' is decided exactly as 'kept iff u < w/max w'; for multinomial resampling the arguments handed to numpy.random.choice (population, size=int(ESS) or n, p=w/sum w, replace) are checked and every scripted answer must come back unchanged. ESS bounds and shift invariance are checked on the same vectors. Every rejection case is repeated under another library-wide eps and must decide identically.",
         "numpy.random.choice's own sampling is trusted; decisions within 8 ulp of the acceptance boundary are not decided.",
         "4/C16",
     ),
     "C17": (
         "exploration",
         "exhaustive enumeration of live sets, weight words and clamp settings on the real threshold methods",
-        "Phase A runs both real threshold methods on every tie pattern x every logW word over {-inf,-5,-1,0} x all method settings and compares the weighted quantile with an independent Harrell-Davis implementation (mpmath) and scipy's hdquantiles; phase B runs the real determine_log_likelihood_threshold for every (size, own index, method) class over the complete lattice of min_samples, min_remove, nlive, draw_constant and max_samples; the full product is run for sizes <= 3 to validate the reduction.",
+        "Phase A runs both real threshold methods on every tie pattern x every logW word over {-inf,-5,-1,0} x all method settings and compares the weighted quantile with an independent Harrell-Davis implementation (mpmath) and scipy's hdquantiles; phase B runs the real determine_log_likelihood_threshold for every (size, own index, method) class over the complete lattice of min_samples, min_remove, nlive, draw_constant and max_samples; the full product is run for sizes <= 3 to validate the reduction. Real runs of the INS lattice (incl. zero-weight samples with finite likelihood under an active clamp) are monitored: every proposal is trained on at least min_samples samples.",
         "min_remove <= size-1 and caps that keep the removal count inside the live set (outside that no live sample can satisfy the constraints). Counts are on positions of the sorted live set.",
         "4/C17",
     ),
@@ -131,14 +131,14 @@ CHECKS = {
     "C19": (
         "exploration",
         "exhaustive value-type x nesting x format lattice plus real result dictionaries under every extension spelling",
-        "Seven finished real runs (both samplers; converged, prior-only, capped, with and without the INS independent set) are saved under all nine spellings of (format, file name, extension argument) and read back with json / h5py; every value type of a 26-letter alphabet (NaN, +-inf, None, numpy scalars incl. longdouble, 0-d / empty / structured arrays, lists of arrays, nested dicts ...) is saved at top level, inside a dict, at depth 2 and inside a list in both formats; config.json is written for 13 keyword sets with classes, functions, lambdas, a live pool, torch dtypes, arrays and non-finite numbers and read back with the standard reader. Comparison is field by field under a type-aware equality.",
+        "Seven finished real runs (both samplers; converged, prior-only, capped, with and without the INS independent set) are saved under all nine spellings of (format, file name, extension argument) and read back with json / h5py; every value type of a 26-letter alphabet (NaN, +-inf, None, numpy scalars incl. longdouble, 0-d / empty / structured arrays, lists of arrays, nested dicts ...) is saved at top level, inside a dict, at depth 2 and inside a list in both formats; config.json is written for 13 keyword sets with classes, functions, lambdas, a live pool, torch dtypes, arrays and non-finite numbers and read back with the standard reader. Comparison is field by field under a type-aware equality. Extended-precision scalars and arrays are compared exactly for HDF5.",
         "None inside a list has no HDF5 representation and does not occur in results (excluded for HDF5 only).",
         "4/C19",
     ),
     "C20": (
         "exploration",
         "deviation-bounded option lattice (every value alone; pairwise covering array) with draw-count and wall-clock bounds",
-        "Every value of every option of the documented alphabet (65 standard-sampler options, 37 INS options, incl. one deliberately invalid value per option) is run on its own on tiny well-posed models (thorough: two models, two seeds, plus a greedy pairwise covering array over the valid values). Each run is classified: rejected before the first live point is drawn, completed and passing the C05 oracle, failing during or after sampling, population loop exceeding 1000x its nominal number of latent draws, or exceeding the 120 s wall-clock backstop.",
+        "Every value of every option of the documented alphabet (65 standard-sampler options, 37 INS options, incl. one deliberately invalid value per option) is run on its own on tiny well-posed models (thorough: two models, two seeds, plus a greedy pairwise covering array over the valid values). Each run is classified: rejected before the first live point is drawn, completed and passing the C05 oracle, failing during or after sampling, population loop exceeding 1000x its nominal number of latent draws, or exceeding the 120 s wall-clock backstop. The deprecated flow_config layouts are part of the alphabet, and every completed single-option run is repeated with a kill at its first checkpoint and a resume with the same keyword arguments.",
         "Known findings: INS train_final_flow, bootstrap, redraw_samples (all variants) and late detection of an unknown INS flow type.",
         "4/C20",
     ),
